@@ -249,7 +249,8 @@ def check_case(ctx, c, real, ans, shrink=True):
             ctx.fail("syntax-error-position-out-of-range", "GraphQLSyntaxError.position outside the text",
                      detail(c, position=pos))
             ok = False
-        if c.expect:
+        if c.expect and not (ans is not None and "ok" in ans):
+            # (when the model accepts, the accept-mismatch below reports it with a shrunk signature)
             ctx.fail("derivation-rejected:%s:%s" % (c.entry, fl_key(c.flags)),
                      "a text derived from the grammar is rejected", detail(c, position=pos))
             ok = False
